@@ -1,4 +1,5 @@
 import BufModel.Rules
+import BufModel.RulesWorkspace
 import Driver.Util
 /-
   Line protocol for C06 (rule selection and suppression).  Lists: "_" = empty list, otherwise
@@ -35,6 +36,12 @@ import Driver.Util
     keytab <ver> <l|b>
         -> rules <id>,…  cats <id>,…      (sorted: every id `use` / `except` / `ignore_only` accept
                                             for that rule type in that version)
+    ymulti <l|b> <wsSection> (<hexModulePath> <modSection>)*        (v2 only; TAB-separated pairs, file order)
+        -> err config
+         | m <hexDir> <eff> ; m <hexDir> <eff> ; … top <eff|none>   (BufYAMLFile.ModuleConfigs order: stable by DirPath)
+        every module is converted from the same workspace-level section VALUE (`readYamlMulti`)
+    directive <hex leading comment> <ruleid>,<ruleid>,…
+        -> one 0/1 digit per rule id: the comment names the rule (`commentNames`, prefix buf:lint:ignore)
         eff : d=<disabled> u=<use> x=<except> g=<ignore> o=<ignoreOnly sorted by key> f=<aci><iup><db><same><ereq><eresp>
               z=<hex suffix> s=<hex suffix>
 -/
@@ -218,6 +225,30 @@ def handle : List String → String
       let rs := rulesForType (rulesOf v) lint
       "rules " ++ ",".intercalate (usIds (ruleIdsOf rs)) ++ " cats " ++ ",".intercalate (usIds (categoryIdsOf rs))
     | _, _ => "bad-op"
+  | "ymulti" :: ty :: ws :: rest =>
+    let rec pairs : List String → Option (List (Str × YSection))
+      | [] => some []
+      | [_] => none
+      | d :: sec :: more => do
+          let d' ← hexDecode d
+          let sec' ← parseSection sec
+          let more' ← pairs more
+          pure ((s2l d', sec') :: more')
+    match parseType ty, parseSection ws, pairs rest with
+    | some lint, some ws, some mods =>
+      (match readYamlMulti lint ws mods with
+       | .error e => "err " ++ e.tag
+       | .ok (ms, top) =>
+         let topS := match top with
+           | none => "none"
+           | some t => showEff t
+         " ; ".intercalate (ms.map fun m => "m " ++ enc (l2s m.1) ++ " " ++ showEff m.2) ++ " top " ++ topS)
+    | _, _, _ => "bad-op"
+  | ["directive", comment, rules] =>
+    match hexDecode comment with
+    | some c =>
+      String.join ((rules.splitOn ",").map fun r => b01 (commentNames lintCommentIgnorePrefix (s2l c) r))
+    | none => "bad-op"
   | _ => "bad-op"
 
 def run : IO Unit := runLines handle
